@@ -395,7 +395,7 @@ def report_roundtrip_violation(ctx, v, shrunk_budget=None):
 
 
 def run_roundtrip(ctx):
-    n = ctx.n(600, 60000)
+    n = ctx.n(600, 30000)
     cases, metas = [], []
     budget = [40]
     for i in range(n):
@@ -423,10 +423,11 @@ def run_roundtrip(ctx):
             metas.append(("py2pl", repr(v)))
             cases.append("res_eqb (roundtrip %d %s) %s" % (f, cv, coq_res(out)))
             metas.append(("roundtrip", repr(v)))
-            # the guard of the theorem is evaluated on the same value: wf => identity
+            # the guard of the theorem is evaluated on the same value; for values the property speaks about
+            # it is tight: wf v  <->  the implementation returns v
             if scope and out[0] == "ok":
-                cases.append("implb (wf %s) %s" % (cv, vf.coq_bool(same(out[1], v))))
-                metas.append(("wf-implies-identity", repr(v)))
+                cases.append("Bool.eqb (wf %s) %s" % (cv, vf.coq_bool(same(out[1], v))))
+                metas.append(("wf-iff-identity", repr(v)))
         except NotEncodable:
             ctx.count("rt_not_encodable_in_model(inf)")
     return cases, metas
@@ -434,7 +435,7 @@ def run_roundtrip(ctx):
 
 def run_pl2py_terms(ctx):
     from problog.pypl import pl2py
-    n = ctx.n(250, 20000)
+    n = ctx.n(250, 8000)
     cases, metas = [], []
     for _ in range(n):
         t = gen_term(ctx.rng, ctx.rng.choice([1, 2, 3, 4]))
@@ -461,7 +462,7 @@ def run_convert(ctx):
     from problog.extern import problog_export
     from problog.logic import Term, Constant
     pe = problog_export()
-    n = ctx.n(250, 20000)
+    n = ctx.n(250, 8000)
     cases, metas = [], []
     budget = [10]
     for _ in range(n):
